@@ -37,6 +37,8 @@ func (p *AnimPic) Image() image.Image {
 		im.Place, im.PadR = "stride", 1+p.OX
 	case "generic":
 		im.Kind = "generic"
+	case "rgba":
+		im.Kind = "rgba" // premultiplied storage; only drawn for pictures whose alpha is 0 or 255 everywhere (exact)
 	}
 	return im.Build()
 }
@@ -56,6 +58,10 @@ func DrawAnimSeq(t *rapid.T, maxCanvas, maxFrames, minDur int, alphas []string) 
 	s := &AnimSeq{}
 	s.CW = rapid.IntRange(1, maxCanvas).Draw(t, "cw")
 	s.CH = rapid.IntRange(1, maxCanvas).Draw(t, "ch")
+	long := rapid.IntRange(0, 24).Draw(t, "longSeq") == 13 // a long run of tiny pictures: key-frame distances, duration merging
+	if long {
+		s.CW, s.CH = minI(s.CW, 8), minI(s.CH, 8)
+	}
 	s.Alpha = rapid.SampledFrom(alphas).Draw(t, "animAlpha")
 	s.Content = rapid.SampledFrom([]string{"flat", "flat", "pal4", "pal16", "gradient", "photo", "noise", "tiled"}).Draw(t, "animContent")
 	seed := rapid.Uint64().Draw(t, "animSeed")
@@ -75,6 +81,9 @@ func DrawAnimSeq(t *rapid.T, maxCanvas, maxFrames, minDur int, alphas []string) 
 	}
 	base := render(seed)
 	n := rapid.IntRange(1, maxFrames).Draw(t, "nFrames")
+	if long {
+		n = rapid.IntRange(15, 60).Draw(t, "nFramesLong")
+	}
 	r := NewRng(seed ^ 0x51)
 	cur := append([]byte(nil), base...)
 	durCls := rapid.SampledFrom([]string{"small", "small", "small", "zero-mix", "huge"}).Draw(t, "durClass")
@@ -208,7 +217,15 @@ func DrawAnimSeq(t *rapid.T, maxCanvas, maxFrames, minDur int, alphas []string) 
 				pic.DurMS = minDur
 			}
 		}
-		pic.Store = rapid.SampledFrom([]string{"tight", "tight", "tight", "sub", "stride", "generic"}).Draw(t, "store")
+		pic.Store = rapid.SampledFrom([]string{"tight", "tight", "tight", "sub", "stride", "generic", "rgba"}).Draw(t, "store")
+		if pic.Store == "rgba" {
+			for i := 3; i < len(pic.Pix); i += 4 {
+				if a := pic.Pix[i]; a != 0 && a != 255 {
+					pic.Store = "tight" // premultiplication would round the colours of translucent pixels
+					break
+				}
+			}
+		}
 		if pic.Store == "sub" || pic.Store == "stride" {
 			pic.OX, pic.OY = rapid.IntRange(0, 5).Draw(t, "storeOX"), rapid.IntRange(0, 5).Draw(t, "storeOY")
 		}
